@@ -5,9 +5,9 @@ CONSTANTS
   WTerm = {}
   QCap = 4
   MaxStart = 1
-  ParentCancels = TRUE
+  ParentCancels = FALSE
   Presents = {{"start","run","stop"}}
-  RunModes = {"any","idle","timer"}
+  RunModes = {"any"}
   GuardNilCancel = FALSE
 INIT GInit
 NEXT GNext
